@@ -35,6 +35,7 @@ func loadAnchors(c *Ctx, r *core.Result) *Anchors {
 	if err := json.Unmarshal(b, a); err != nil {
 		anchorFail(r, "config/anchors.json", err.Error())
 	}
+	a.detectRenames(c.VerifDir)
 	return a
 }
 
